@@ -59,8 +59,9 @@ class Mod:
         except (OSError, SyntaxError) as e:
             raise AnalysisError("cannot parse %s: %s" % (self.rel, e))
         # helpers introduced after the pinned commit are inlined into their callers (see inline.py)
-        from inline import Inliner, StructNorm
+        from inline import Inliner, StructNorm, Evolve
         self.struct_normalised = StructNorm(self.tree).run()
+        self.evolved = Evolve(name, self.tree, path=self.path).run()
         self.inlined = Inliner(name, self.tree, path=self.path).run()
         set_parents(self.tree)
         self.classes = {}
